@@ -14,7 +14,7 @@ import (
 
 func init() {
 	Register(&Property{ID: "C01", Run: runC01,
-		Rule: "one real engine vs. adversarial stub peer, 15-150 inbound actions mixing application and administrative messages below/at/above the expected number, PossDup with and without OrigSendingTime, gap fills, SequenceReset-Reset, ResendRequests, Logouts, Logons inside the session, re-logons after cuts, peer silence (timers fire), chunk size 0-5, application rejecting some messages; both roles, all BeginStrings; inbound application messages include BusinessMessageReject; peer ResendRequests with off-sequence numbers; extra rule: the expected number advances only for the message that carries it. Non-trivial: at least 3 FromApp deliveries and at least one recovery, reset or reject path taken; distinct: canonical trace hash"})
+		Rule: "one real engine vs. adversarial stub peer, 15-150 inbound actions mixing application and administrative messages below/at/above the expected number, PossDup with and without OrigSendingTime, gap fills, SequenceReset-Reset, ResendRequests, Logouts, Logons inside the session, re-logons after cuts, peer silence (timers fire), chunk size 0-5, application rejecting some messages; both roles, all BeginStrings; inbound application messages include BusinessMessageReject; peer ResendRequests with off-sequence numbers; extra rule: the expected number advances only for the message that carries it; messages without a usable MsgSeqNum; ResetOnLogon with a counterparty that renumbers from 1 on its in-session Logon. Non-trivial: at least 3 FromApp deliveries and at least one recovery, reset or reject path taken; distinct: canonical trace hash"})
 }
 
 type c01ev struct {
